@@ -10,27 +10,29 @@
     Result: [r_reached] (the chain got to the application steps), [r_app] (what an application step
     finds when 'deliver' is recorded), [r_out] = [Delivered payload blocks] | [Deleted reason] | [Dropped].
 
-    Full-strength statement demanded by the property (FALSE for the code as it is, see the two
-    [_refuted] theorems):
+    Full-strength statement demanded by the property (FALSE for the code as it is, see
+    [C12_invisible_refuted]):
 
       forall c secs data,
         (exists s, In s secs /\ (s_visible s = false \/ blk_result s <> VNone)) ->
         r_reached (recv_sec c secs data) = false /\ r_app (recv_sec c secs data) = None
-        /\ exists code, r_out (recv_sec c secs data) = Deleted (RCode code) /\ 12 <= code <= 16.
+        /\ exists code, r_out (recv_sec c secs data) = Deleted code /\ 12 <= code <= 16.
 
-    What is proved instead:
-      [C12_never_delivered]      no guard on exceptions or codes: a VISIBLE block that does not verify =>
-                                 no application step, not delivered (any number / order of blocks);
-      [C12_fail_closed_partial]  guard "no exception escapes a verification call" (and the codes the
-                                 contexts answer are security reasons) => marked deleted, reason in 12..16;
+    What is proved:
+      [C12_fail_closed_partial]  the statement for VISIBLE blocks (the guard excludes exactly the known
+                                 finding), for any number and order of blocks, whether the context answers
+                                 a failure code or an exception escapes it: no application step, marked
+                                 deleted, reason in 12..16 (the codes the contexts answer being security
+                                 reasons); [C12_never_delivered] is the part that needs no premise on codes;
       [C12_invisible_refuted]    a type-11/12 block whose BTSD does not dissect is not verified at all and
-                                 the bundle is delivered  (DESIGN section 7 #12);
-      [C12_reason_refuted]       an escaping exception gives a text reason (deleted, but not with a
-                                 security reason code) or, mixed with a numeric failure, makes [max()]
-                                 raise after 'deliver' was removed: neither delivered nor marked deleted;
+                                 the bundle is delivered  (DESIGN section 7 #12, known finding);
       [C12_pass_through_accept], [C12_pass_through_keep], [C12_no_security_blocks];
       [C12_live_iteration_refuted]  what the original tree (iteration over the live list) got wrong and
-                                 the fixed iteration gets right (DESIGN section 7 #11). *)
+                                 the fixed iteration gets right (DESIGN section 7 #11).
+    Fixed since the first version of this file (regression witnesses in harness/corpus): an exception
+    escaping [verify_bib]/[verify_bcb] used to give a text reason (no report) or, next to a numeric
+    failure, made [max()] raise so that the bundle was neither delivered nor marked deleted; the model
+    now has [step_code VRaised = Some FAILED_SEC] and the no-exception guard is gone. *)
 From Coq Require Import NArith List Bool.
 From DTN Require Import Model.BpSecChain Proofs.BpSecChainProofs.
 Import ListNotations.
@@ -41,7 +43,7 @@ Theorem C12_never_delivered :
     (exists s, In s secs /\ s_visible s = true /\ blk_result s <> VNone) ->
     r_reached (recv_sec c secs data) = false
     /\ r_app (recv_sec c secs data) = None
-    /\ (r_out (recv_sec c secs data) = Dropped \/ exists x, r_out (recv_sec c secs data) = Deleted x).
+    /\ exists code, r_out (recv_sec c secs data) = Deleted code.
 Proof. exact never_delivered. Qed.
 Print Assumptions C12_never_delivered.
 
@@ -60,24 +62,25 @@ Qed.
 Theorem C12_fail_closed_partial :
   forall (c : cfg) (secs : list secblk) (data : datamap),
     (exists s, In s secs /\ s_visible s = true /\ blk_result s <> VNone) ->
-    (forall s, In s secs -> s_visible s = true -> blk_result s <> VRaised) ->
     (forall s code, In s secs -> s_visible s = true -> blk_result s = VCode code -> sec_reason code = true) ->
     r_reached (recv_sec c secs data) = false
     /\ r_app (recv_sec c secs data) = None
-    /\ exists code, r_out (recv_sec c secs data) = Deleted (RCode code) /\ 12 <= code <= 16.
-Proof. exact fail_closed_no_raise. Qed.
+    /\ exists code, r_out (recv_sec c secs data) = Deleted code /\ 12 <= code <= 16.
+Proof. exact fail_closed. Qed.
 Print Assumptions C12_fail_closed_partial.
 
-(* non-vacuity: unknown context (13) in a BIB and a failing BIB (15): the larger code is reported *)
+(* non-vacuity: unknown context (13) in one BIB, an exception escaping the next one (absent target), a third
+   that verifies: deleted with the larger code 15 *)
 Example C12_fail_closed_partial_example :
   let secs := [mkSec false 2 true false PreOk [(1, TOk 0)];
-               mkSec false 3 true true (PreFail 15) [(1, TOk 0)]] in
-  (exists s, In s secs /\ s_visible s = true /\ blk_result s <> VNone)
-  /\ forallb (fun s => match blk_result s with VRaised => false | VCode code => sec_reason code | VNone => true end) secs = true
-  /\ render (recv_sec (mkCfg false) secs [(1, 9)]) = (false, [], (1, 15, ([], []))).
+               mkSec false 3 true true PreOk [(77, TRaise)];
+               mkSec false 4 true true PreOk [(1, TOk 0)]] in
+  (exists s, In s secs /\ s_visible s = true /\ blk_result s = VRaised)
+  /\ forallb (fun s => match blk_result s with VCode code => sec_reason code | _ => true end) secs = true
+  /\ render (recv_sec (mkCfg true) secs [(1, 9)]) = (false, [], (1, 15, ([], []))).
 Proof.
   split; [|vm_compute; split; reflexivity].
-  eexists. split; [left; reflexivity|]. split; [reflexivity|]. vm_compute. discriminate.
+  eexists. split; [right; left; reflexivity|]. split; reflexivity.
 Qed.
 
 Theorem C12_invisible_refuted :
@@ -86,16 +89,6 @@ Theorem C12_invisible_refuted :
     /\ exists p v, r_out (recv_sec c secs data) = Delivered p v /\ r_app (recv_sec c secs data) = Some (p, v).
 Proof. exact invisible_refuted. Qed.
 Print Assumptions C12_invisible_refuted.
-
-Theorem C12_reason_refuted :
-  (exists (c : cfg) (secs : list secblk) (data : datamap),
-     (exists s, In s secs /\ s_visible s = true /\ blk_result s <> VNone)
-     /\ r_out (recv_sec c secs data) = Deleted RText)
-  /\ (exists (c : cfg) (secs : list secblk) (data : datamap),
-     (exists s, In s secs /\ s_visible s = true /\ blk_result s <> VNone)
-     /\ r_out (recv_sec c secs data) = Dropped).
-Proof. exact reason_refuted. Qed.
-Print Assumptions C12_reason_refuted.
 
 (** All visible security blocks verify, acceptance configured: delivered, every verified block removed,
     every BCB target replaced by its plaintext, everything else (including blocks the chain cannot see)
@@ -163,6 +156,6 @@ Theorem C12_live_iteration_refuted :
   exists (c : cfg) (secs : list secblk) (data : datamap),
     (exists s, In s secs /\ s_visible s = true /\ blk_result s <> VNone)
     /\ (exists p v, r_out (recv_sec_live c secs data) = Delivered p v)
-    /\ r_out (recv_sec c secs data) = Deleted (RCode FAILED_SEC).
+    /\ r_out (recv_sec c secs data) = Deleted FAILED_SEC.
 Proof. exact live_iteration_refuted. Qed.
 Print Assumptions C12_live_iteration_refuted.
